@@ -6,6 +6,8 @@ package main
 // Oracle: the node ends with exactly the ledger of parents-first delivery.
 
 import (
+	"github.com/bartossh/Computantis/src/wallet"
+	"context"
 	"time"
 	"fmt"
 	"sort"
@@ -261,6 +263,106 @@ func oldHistory(c *Ctx, k int, age time.Duration, perm []int) {
 	}
 }
 
+// realRetryLoop: the node's own retry loop (buffer ticker + runLeafSubscriber, 2 ms tick through the hook
+// VerifNewAccountingBookFastRetry) instead of the synchronous retry hook. Not replayed on the model (the
+// retries happen on their own): judged by snapshots.
+//   (1) a chain delivered in reverse order is admitted automatically, nothing stays parked;
+//   (2) an orphan whose parent never arrives is retried a bounded number of times (25) and then given up:
+//       its retry counter never exceeds the bound and it leaves the buffer.
+func realRetryLoop(c *Ctx) {
+	w := NewWorld(c)
+	defer w.Close()
+	w.quiet = true
+	a := w.NewNode()
+	w.NewWallet()
+	w.NewWallet()
+	sealer := w.NewWallet()
+	w.Genesis(a, w.wallets[0].Address(), spice.Melange{Currency: 1000})
+	gen := a.ab.VerifSnapshot().Vertices[0]
+	nw, _ := wallet.New()
+	ctx, cancel := context.WithCancel(context.Background())
+	defer cancel()
+	fb, err := accountant.VerifNewAccountingBookFastRetry(ctx, accountant.Config{}, w.ver, &nw, nopLog{}, 2*time.Millisecond)
+	if err != nil {
+		panic(err)
+	}
+	{ // sync the fast node from a
+		ch := make(chan *accountant.Vertex, 10)
+		done := make(chan struct{})
+		go func() { fb.LoadDag(func(error) {}, ch); close(done) }()
+		for v := range a.ab.StreamDAG(context.Background()) {
+			ch <- v
+		}
+		close(ch)
+		<-done
+	}
+	info := map[string]interface{}{"section": "orphans", "scenario": "real-retry-loop"}
+	c.Mark(info)
+	mk := func(prev [32]byte, weight uint64, tag byte) accountant.Vertex {
+		t := w.NewTrx(w.wallets[0], w.wallets[1].Address(), spice.Melange{Currency: 1, SupplementaryCurrency: uint64(tag)}, nil)
+		v, _ := accountant.NewVertex(t, prev, prev, weight, sealer)
+		return v
+	}
+	// (1) chain of 5 in reverse order
+	var chain []accountant.Vertex
+	prev, wt := gen.Hash, gen.Weight
+	for i := 0; i < 5; i++ {
+		wt++
+		v := mk(prev, wt, byte(i))
+		chain = append(chain, v)
+		prev = v.Hash
+	}
+	for i := len(chain) - 1; i >= 0; i-- {
+		cp := chain[i]
+		fb.AddLeaf(context.Background(), &cp)
+	}
+	deadline := time.Now().Add(5 * time.Second)
+	for time.Now().Before(deadline) {
+		s := fb.VerifSnapshot()
+		if len(s.Vertices) == 6 && len(s.Parked) == 0 {
+			break
+		}
+		time.Sleep(5 * time.Millisecond)
+	}
+	s1 := fb.VerifSnapshot()
+	c.Rep.Evals++
+	c.Count("real-retry-loop.reverse-chain")
+	if len(s1.Vertices) != 6 || len(s1.Parked) != 0 {
+		c.Violate("C13", "real-loop-does-not-admit-parked-vertices", fmt.Sprintf("a chain of 5 delivered in reverse order to a node with a 2 ms retry tick: after 5 s it holds %d of 6 vertices, %d still parked", len(s1.Vertices), len(s1.Parked)), info)
+	}
+	// (2) an orphan whose parent never arrives
+	orphan := mk([32]byte{9, 9, 9}, 50, 77)
+	fb.AddLeaf(context.Background(), &orphan)
+	maxRep, gone := 0, false
+	lastSeen := time.Now()
+	deadline = time.Now().Add(4 * time.Second)
+	for time.Now().Before(deadline) {
+		s := fb.VerifSnapshot()
+		for _, p := range s.Parked {
+			if p.Vrx.Hash == orphan.Hash {
+				lastSeen = time.Now()
+				if p.Repeated > maxRep {
+					maxRep = p.Repeated
+				}
+			}
+		}
+		// between a pop and the re-insert the vertex is briefly out of the buffer: "given up" means absent
+		// for far longer than a tick
+		if time.Since(lastSeen) > 150*time.Millisecond {
+			gone = true
+			break
+		}
+		time.Sleep(time.Millisecond)
+	}
+	c.Rep.Evals++
+	c.Count("real-retry-loop.hopeless-orphan")
+	c.Rep.Extra["real_loop_max_retry_counter_seen"] = maxRep
+	if !gone || maxRep > 27 {
+		c.Violate("C13", "real-loop-retries-unbounded", fmt.Sprintf("an orphan whose parent never arrives, 2 ms retry tick, watched for 3 s: given up: %v, highest retry counter seen: %d (bound 25)", gone, maxRep), info)
+	}
+	c.Distinct("real-retry-loop")
+}
+
 func init() {
 	sections["orphans"] = func(c *Ctx) error {
 		c.Rep.Rule = "valid histories (chain or two-origin braid) of k vertices delivered to a synced node in all k! orders (k<=4 quick, k<=5 thorough; exhaustive) and random orders (k=12..20), with duplicates / corrupted copies / interleaved retries; back-dated histories (created 90 s .. 3 days ago) delivered out of order; retries until the buffer is empty; final ledger compared with parents-first delivery; non-trivial = distinct (shape, permutation)"
@@ -299,6 +401,7 @@ func init() {
 			oldHistory(c, 4, age, []int{3, 2, 1, 0})
 			oldHistory(c, 4, age, []int{1, 3, 0, 2})
 		}
+		realRetryLoop(c)
 		c.Rep.Extra["exhaustive_up_to_k"] = kmax
 		c.Rep.Extra["exhaustive"] = exhaustive
 		c.Sample(map[string]interface{}{"k": 4, "perm": []int{3, 1, 0, 2}, "ops": "ADD b v3 (noParent, parked); ADD b v1 (noParent); ADD b v0 (ok); ADD b v2 (noParent); RETRY* until empty"})
